@@ -18,7 +18,7 @@ inductive Entry where
   | module (m : Mod)
   | err (missing : Bool) (code : Nat) (errSpec : Spec)
   | redirect (to : Spec)
-  deriving Repr, Inhabited
+  deriving DecidableEq, Repr, Inhabited
 
 structure WalkState where
   seen : List Spec
@@ -43,67 +43,77 @@ def depTargets (kind : GraphKind) (d : Dep) : List Spec :=
   (match d.code with | .ok s _ => [s] | _ => []) ++
   (if kind.includeTypes then (match d.type with | .ok s _ => [s] | _ => []) else [])
 
-/-- `analyze_module_deps` -/
-def analyzeDeps (o : WalkOpts) (deps : List Dep) (st : WalkState) : WalkState :=
-  deps.reverse.foldl
-    (fun st d =>
-      if !d.dyn || o.followDynamic then (depTargets o.kind d).foldl WalkState.pushFront st
-      else st)
-    st
+/-- pushing a list of specifiers, first to last (`seen.insert` guards each push) -/
+def pushAll (l : List Spec) (st : WalkState) : WalkState := l.foldl WalkState.pushFront st
+
+/-- `analyze_module_deps`: the targets pushed for a dependency list, in push order
+(`for dep in module_deps.values().rev()`, skipping unfollowed dynamic ones) -/
+def depEdgeTargets (o : WalkOpts) (deps : List Dep) : List Spec :=
+  deps.reverse.flatMap fun d =>
+    if !d.dyn || o.followDynamic then depTargets o.kind d else []
 
 /-- the dependency list a visited module contributes (both iterators use this rule) -/
 def walkDeps (o : WalkOpts) (key : Spec) (m : Mod) : List Dep :=
   let checkTypes := o.kind.includeTypes && isCheckable o key m.mediaType
   if checkTypes && o.preferFastCheck then m.depsPreferFastCheck else m.deps
 
+/-- what the prologue of `next` pushes for the previously yielded entry -/
+def succs (o : WalkOpts) (key : Spec) : Entry → List Spec
+  | .module m => depEdgeTargets o (walkDeps o key m)
+  | .redirect to => [to]
+  | .err .. => []
+
+/-- targets of the configured imports, in push order -/
+def importTargets (g : Graph) (kind : GraphKind) : List Spec :=
+  (g.imports.flatMap (·.2)).flatMap (depTargets kind)
+
 /-- `ModuleEntryIterator::new` -/
 def walkInit (g : Graph) (kind : GraphKind) (roots : List Spec) : WalkState :=
-  let st0 : WalkState :=
+  pushAll (importTargets g kind)
     { seen := roots.foldl setInsert [], visiting := roots, prev := none }
-  (g.imports.flatMap (·.2)).foldl
-    (fun st d => (depTargets kind d).foldl WalkState.pushFront st) st0
 
 /-- the `match self.previous_module.take()` prologue of `next` -/
 def expandPrev (o : WalkOpts) (st : WalkState) : WalkState :=
   match st.prev with
-  | some (key, .module m) => analyzeDeps o (walkDeps o key m) { st with prev := none }
-  | some (_, .redirect to) => ({ st with prev := none } : WalkState).pushFront to
-  | some (_, .err ..) => { st with prev := none }
+  | some (key, e) => pushAll (succs o key e) { st with prev := none }
   | none => st
 
-/-- What popping specifier `s` does: maybe push the types dependency, maybe yield. -/
-def visit (g : Graph) (o : WalkOpts) (s : Spec) (st : WalkState) :
-    WalkState × Option Entry :=
+/-- What popping specifier `s` does, independent of the iterator state: the types dependency
+it pushes (if any) and the entry it yields (if any). -/
+def visitInfo (g : Graph) (o : WalkOpts) (s : Spec) : List Spec × Option Entry :=
   match g.slot s with
-  | some .pending => (st, none)
+  | some .pending => ([], none)
   | some (.module m) =>
     match m with
     | .js mt _ td _ =>
       if o.kind.includeTypes then
         match (td.map (·.res) : Option Res) with
         | some (Res.ok t _) =>
-          let st := st.pushFront t
-          if o.kind = .TypesOnly then (st, none) else (st, some (.module m))
+          if o.kind = .TypesOnly then ([t], none) else ([t], some (.module m))
         | _ =>
-          if o.kind = .TypesOnly && !isCheckable o s mt then (st, none)
-          else (st, some (.module m))
-      else (st, some (.module m))
-    | _ => (st, some (.module m))
-  | some (.err mi c es) => (st, some (.err mi c es))
+          if o.kind = .TypesOnly && !isCheckable o s mt then ([], none)
+          else ([], some (.module m))
+      else ([], some (.module m))
+    | _ => ([], some (.module m))
+  | some (.err mi c es) => ([], some (.err mi c es))
   | none =>
     match g.redirect s with
-    | some to => (st, some (.redirect to))
-    | none => (st, none)
+    | some to => ([], some (.redirect to))
+    | none => ([], none)
 
-/-- Run the iterator to exhaustion; one unit of fuel per popped specifier.
+def visit (g : Graph) (o : WalkOpts) (s : Spec) (st : WalkState) : WalkState × Option Entry :=
+  (pushAll (visitInfo g o s).1 st, (visitInfo g o s).2)
+
+/-- Run the iterator to exhaustion; one unit of fuel per popped specifier; `none` = out of
+fuel (never happens with `walkFuel`, see `Theorems/C15.lean`).
 `skip key` = the client called `skip_previous_dependencies` after receiving `key`. -/
 def walkLoop (g : Graph) (o : WalkOpts) (skip : Spec → Bool) :
-    Nat → WalkState → List (Spec × Entry) → List (Spec × Entry)
-  | 0, _, acc => acc.reverse
+    Nat → WalkState → List (Spec × Entry) → Option (List (Spec × Entry))
+  | 0, _, _ => none
   | fuel + 1, st, acc =>
     let st := expandPrev o st
     match st.visiting with
-    | [] => acc.reverse
+    | [] => some acc.reverse
     | s :: rest =>
       let (st, y) := visit g o s { st with visiting := rest }
       match y with
@@ -112,23 +122,33 @@ def walkLoop (g : Graph) (o : WalkOpts) (skip : Spec → Bool) :
         let st := { st with prev := if skip s then none else some (s, e) }
         walkLoop g o skip fuel st ((s, e) :: acc)
 
+/-- both resolved targets of a dependency -/
+def Dep.allTargets (d : Dep) : List Spec :=
+  (match d.code with | .ok s _ => [s] | _ => []) ++ (match d.type with | .ok s _ => [s] | _ => [])
+
+/-- every target a module mentions: dependencies, fast-check dependencies, types dependency -/
+def Mod.allTargets (m : Mod) : List Spec :=
+  (m.deps.flatMap Dep.allTargets) ++ (m.depsPreferFastCheck.flatMap Dep.allTargets) ++
+  (match m.typesDep with
+   | some td => (match td.res with | .ok s _ => [s] | _ => [])
+   | none => [])
+
 /-- every specifier the graph mentions as a target (bounds what can ever be pushed) -/
 def Graph.targets (g : Graph) : List Spec :=
-  let depT (d : Dep) : List Spec :=
-    (match d.code with | .ok s _ => [s] | _ => []) ++ (match d.type with | .ok s _ => [s] | _ => [])
-  let modT (m : Mod) : List Spec :=
-    (m.deps.flatMap depT) ++ (m.depsPreferFastCheck.flatMap depT) ++
-    (match m.typesDep with | some td => (match td.res with | .ok s _ => [s] | _ => []) | none => [])
-  (g.slots.flatMap fun (_, sl) => match sl with | .module m => modT m | _ => []) ++
-  (g.redirects.map (·.2)) ++ ((g.imports.flatMap (·.2)).flatMap depT)
+  (g.slots.flatMap fun (_, sl) => match sl with | .module m => m.allTargets | _ => []) ++
+  (g.redirects.map (·.2)) ++ ((g.imports.flatMap (·.2)).flatMap Dep.allTargets)
 
 def walkFuel (g : Graph) (roots : List Spec) : Nat :=
-  roots.length + g.targets.length + 1
+  roots.length + g.targets.length + 2
+
+def Graph.walk? (g : Graph) (o : WalkOpts) (roots : List Spec) (skip : Spec → Bool) :
+    Option (List (Spec × Entry)) :=
+  walkLoop g o skip (walkFuel g roots) (walkInit g o.kind roots) []
 
 /-- `graph.walk(roots, options)` collected -/
 def Graph.walk (g : Graph) (o : WalkOpts) (roots : List Spec) (skip : Spec → Bool := fun _ => false) :
     List (Spec × Entry) :=
-  walkLoop g o skip (walkFuel g roots) (walkInit g o.kind roots) []
+  (g.walk? o roots skip).getD []
 
 /-! ## errors -/
 
